@@ -44,7 +44,8 @@ def programs(draw, max_len=25):
     leaves = []
     for _ in range(k):
         shp = draw(st.sampled_from(LEAF_SHAPES))
-        leaves.append({"shape": shp, "v": draw(gen.grid(shp, -12, 12)), "rg": draw(st.booleans())})
+        leaves.append({"shape": shp, "v": draw(gen.grid(shp, -12, 12)), "rg": draw(st.booleans()),
+                       "param": draw(st.sampled_from([False, False, True]))})
     if not any(l["rg"] for l in leaves):
         leaves[draw(st.integers(0, k - 1))]["rg"] = True
     n = draw(st.integers(4, max_len))
@@ -184,7 +185,8 @@ def resolve(case):
                 if nd == 0:
                     ok = False
                 else:
-                    keys = [0, -1, slice(None, None, 2), slice(None, None, -1), (Ellipsis, 0), (slice(0, 1),), [0, 0]]
+                    keys = [0, -1, slice(None, None, 2), slice(None, None, -1), (Ellipsis, 0), (slice(0, 1),), [0, 0],
+                            ((0, 0, -1),), (np.array([0, 0]),), ((0, -1, 0), Ellipsis)]
                     prm["key"] = keys[p % len(keys)]
             elif op in ("log_softmax", "softmax"):
                 if nd == 0:
@@ -223,6 +225,8 @@ def execute(case, ssa, order, leaf_arrays, track, rg=None):
     nodes = {}
     for i in range(k):
         nodes[i] = Tensor(np.array(leaf_arrays[i], dtype=np.float64), requires_grad=bool(track and rg[i]))
+        if case["leaves"][i].get("param"):
+            nodes[i] = sg.nn.Parameter(nodes[i])      # a Tensor subclass must behave like a Tensor in any position
     for j in order:
         ins = ssa[j]
         xs = [nodes[i] for i in ins["in"]]
